@@ -24,6 +24,9 @@ func init() {
 			"first evaluated); a node seen for the first time requests no re-sync.",
 		Run: runC09,
 		Mutants: []Mutant{
+			{Name: "node-update-filter-needs-condition-on-both-sides", File: "internal/k8s/controllers/node_controller.go",
+				Old: "\t\t\tif k8snodes.IsNetworkUnavailable(oldNode) != k8snodes.IsNetworkUnavailable(newNode) {\n\t\t\t\treturn true\n\t\t\t}\n",
+				New: "\t\t\tif len(oldNode.Status.Conditions) > 0 && k8snodes.IsNetworkUnavailable(oldNode) != k8snodes.IsNetworkUnavailable(newNode) {\n\t\t\t\treturn true\n\t\t\t}\n", Expect: "NODE-EVENTS"},
 			{Name: "new-session-not-republished", File: "speaker/bgp_controller.go",
 				Old: "\t\t\t\tp.session = s\n\t\t\t\tneedUpdateAds = true",
 				New: "\t\t\t\tp.session = s", Expect: "REPUBLISH"},
@@ -73,6 +76,8 @@ func runC09(p *chk.Prog, r *chk.Report) {
 	// a session that comes up outside a configuration change (node labels) is offered the current advertisements
 	// (REPUBLISH, shared with C05)
 	c05Republish(p, r)
+	// ... and a node event reaches the speaker at all (NODE-EVENTS, shared with C10)
+	nodeEventsRule(p, r)
 }
 
 // c09NodeLabels (shared with C05): the peers' node selectors are evaluated against the labels cached by
